@@ -10,6 +10,8 @@ VARIABLE c
 \* mod_rs        in a file called mod.rs                      main_rs / build_rs   in files with those names
 \* space_name    a file name with a space                     dotted_name   a file called types.v2.rs
 \* nonascii_dir  a directory with a non-ASCII name            upper_dir     a directory called SRC_Types
+\* symlink_file  a .rs file that is a symbolic link to a regular file outside the scanned directories (a linked FILE is read with
+\*               or without --follow-links; the option is about linked directories)
 \* no_src        a crate directory without a src directory (single-file mode only: folder mode names files after the directory above src)
 Init == c \in { r \in [place : Places, mode : Modes, lang : Langs] : r.place = "no_src" => r.mode = "single" }
 Next == UNCHANGED c
